@@ -31,7 +31,7 @@ Fixpoint comparable (t : ty) : bool :=
   | TPair a b => comparable a && comparable b
   | TOption a => comparable a
   | TOr a b => comparable a && comparable b
-  | TList _ | TOperation | TAddress | TChainId => false   (* address/chain_id are comparable in Michelson; their order is property C03's subject and outside this fragment *)
+  | TList _ | TSet _ | TMap _ _ | TOperation | TAddress | TChainId => false   (* address/chain_id are comparable in Michelson; their order is property C03's subject and outside this fragment *)
   end.
 
 (* both branches of a conditional must agree unless one of them fails *)
@@ -75,12 +75,45 @@ Definition ediv_ty (a b : ty) : option ty :=
   | _, _ => None
   end.
 
-(* instructions without sub-programs *)
-Definition tc_simple (i : instr) (s : sty) : option sty :=
+(* does a type mention set or map? (the proved fragment has no set/map literal) *)
+Fixpoint has_coll (t : ty) : bool :=
+  match t with
+  | TSet _ | TMap _ _ => true
+  | TPair a b | TOr a b => has_coll a || has_coll b
+  | TOption a | TList a => has_coll a
+  | _ => false
+  end.
+
+(* instructions without sub-programs. [strict = true]: the proved fragment (no set/map instruction) *)
+Definition tc_simple (strict : bool) (i : instr) (s : sty) : option sty :=
   match i with
+  | I_EMPTY_SET k => if negb strict && comparable k then Some (TSet k :: s) else None
+  | I_EMPTY_MAP k v => if negb strict && comparable k then Some (TMap k v :: s) else None
+  | I_MEM => if strict then None else
+             match s with
+             | k :: TSet k' :: r | k :: TMap k' _ :: r => if ty_eqb k k' then Some (TBool :: r) else None
+             | _ => None
+             end
+  | I_GET => if strict then None else
+             match s with
+             | k :: TMap k' v :: r => if ty_eqb k k' then Some (TOption v :: r) else None
+             | _ => None
+             end
+  | I_UPDATE => if strict then None else
+                match s with
+                | k :: TBool :: TSet k' :: r => if ty_eqb k k' then Some (TSet k' :: r) else None
+                | k :: TOption v :: TMap k' v' :: r => if ty_eqb k k' && ty_eqb v v' then Some (TMap k' v' :: r) else None
+                | _ => None
+                end
+  | I_GET_AND_UPDATE => if strict then None else
+                        match s with
+                        | k :: TOption v :: TMap k' v' :: r =>
+                            if ty_eqb k k' && ty_eqb v v' then Some (TOption v' :: TMap k' v' :: r) else None
+                        | _ => None
+                        end
   | I_DROP _ | I_DUP _ | I_DIG _ | I_DUG _ => shuffle i s
   | I_SWAP => match s with a :: b :: r => Some (b :: a :: r) | _ => None end
-  | I_PUSH t d => if data_has_type t d then Some (t :: s) else None
+  | I_PUSH t d => if data_has_type t d && negb (strict && has_coll t) then Some (t :: s) else None
   | I_PAIR => match s with a :: b :: r => Some (TPair a b :: r) | _ => None end
   | I_UNPAIR => match s with TPair a b :: r => Some (a :: b :: r) | _ => None end
   | I_CAR => match s with TPair a _ :: r => Some (a :: r) | _ => None end
@@ -106,6 +139,7 @@ Definition tc_simple (i : instr) (s : sty) : option sty :=
   | I_CONS => match s with a :: TList b :: r => if ty_eqb a b then Some (TList b :: r) else None | _ => None end
   | I_SIZE => match s with
               | TString :: r | TBytes :: r | TList _ :: r => Some (TNat :: r)
+              | TSet _ :: r | TMap _ _ :: r => if strict then None else Some (TNat :: r)
               | _ => None
               end
   | I_ADD => match s with a :: b :: r => option_map (fun t => t :: r) (add_ty a b) | _ => None end
@@ -233,14 +267,19 @@ Fixpoint typecheck_gen (strict : bool) (i : instr) (s : sty) {struct i} : option
       | _ => None
       end
   | I_ITER c =>
-      match s with
-      | TList a :: r =>
+      match (match s with
+             | TList a :: r => Some (a, r)
+             | TSet a :: r => if strict then None else Some (a, r)
+             | TMap k v :: r => if strict then None else Some (TPair k v, r)
+             | _ => None
+             end) with
+      | Some (a, r) =>
           match typecheck_gen strict c (a :: r) with
           | Some (Typed s1) => if sty_eqb s1 r then Some (Typed r) else None
           | Some Failing => Some (Typed r)
           | None => None
           end
-      | _ => None
+      | None => None
       end
   | I_MAP c =>
       match s with
@@ -250,9 +289,15 @@ Fixpoint typecheck_gen (strict : bool) (i : instr) (s : sty) {struct i} : option
               if sty_eqb r1 r && (negb strict || ty_eqb a b) then Some (Typed (TList b :: r)) else None
           | _ => None   (* a MAP body may not fail *)
           end
+      | TMap k v :: r =>
+          if strict then None else
+          match typecheck_gen strict c (TPair k v :: r) with
+          | Some (Typed (b :: r1)) => if sty_eqb r1 r then Some (Typed (TMap k b :: r)) else None
+          | _ => None
+          end
       | _ => None
       end
-  | _ => option_map Typed (tc_simple i s)
+  | _ => option_map Typed (tc_simple strict i s)
   end.
 
 (* the Michelson typing rules *)
